@@ -564,7 +564,8 @@ def c08_families(rng, tier):
     cats = {}
     for i in range(n):
         k = 2 + i % 6
-        h = card_or_blank_multiset(rng, k, 10) if i % 3 == 0 else rand_hand(rng, k)
+        # (the choice must be independent of the size: `i % 3` is a function of `i % 6`)
+        h = card_or_blank_multiset(rng, k, (10, 30)[rng.below(2)]) if rng.below(3) == 0 else rand_hand(rng, k)
         cats["size%d" % k] = cats.get("size%d" % k, 0) + 1
         hands.append(line("shiftn %d" % k, h))
     val = []
@@ -606,7 +607,7 @@ def c11_families(rng, tier):
     rnd, cats = [], {"random_u32": 0, "cards": 0, "card_or_blank_repeats": 0}
     for i in range(n):
         k = 2 + i % 6
-        kind = i % 3
+        kind = rng.below(3)   # independent of the size
         if kind == 0:
             h = [rng.next() & 0xFFFFFFFF for _ in range(k)]
             cats["random_u32"] += 1
@@ -755,7 +756,7 @@ def c15_families(rng, tier):
     sets = structured_sets()
     for i in range(n):
         d = (2, 8, 32, 56)[i % 4]
-        sets.append(popcount_value(rng, 1 + rng.below(d), 64 if i % 2 else 52))
+        sets.append(popcount_value(rng, 1 + rng.below(d), 64 if rng.below(2) else 52))   # span independent of the density
     peel = ["peel %d 3" % b for b in sets]
     ops = []
     for i, b in enumerate(sets):
